@@ -105,15 +105,26 @@ def run_life(case):
         cf.connected.add_callback(on_connected)
 
         def on_fully(uri):
-            for p in spec['param_toc']:
-                if p['name'] not in cf.param.values.get(p['group'], {}):
+            import struct as _st
+            from vlib.simcf import PARAM_TYPES as _PT
+            dev = env.device
+            for i, p in enumerate(spec['param_toc']):
+                have = cf.param.values.get(p['group'], {}).get(p['name'])
+                want = str(_st.unpack(_PT[p['type']][1], dev.pack_param(i, dev.values[i]))[0])
+                if have is None:
                     out.fail('life:fully-connected-without-values', '%s.%s has no value' % (p['group'], p['name']))
+                    break
+                if have != want:
+                    out.fail('life:fully-connected-with-stale-values', '%s.%s is %r when fully_connected fires, the device holds %r' % (p['group'], p['name'], have, want))
                     break
         cf.fully_connected.add_callback(on_fully)
         race = {'error': False, 'close': False}
         attempts = list(case['attempts']) + [{'fault': None, 'close_at': None, 'sync': case['attempts'][-1]['sync'] if case['attempts'] else False, 'final': True}]
         scf = SyncCrazyflie('sim://1', cf=cf)
         for ai, at in enumerate(attempts):
+            # the device's parameter values differ from session to session
+            for i_, p_ in enumerate(spec['param_toc']):
+                env.device.values[i_] = (ai * 3 + i_ + 1) if p_['type'] not in (6, 7) else ai * 1.5 + i_
             if not at.get('final') and at.get('close_at') is None and not at.get('fault'):
                 at = dict(at, close_at=3.0)
             elif not at.get('final') and at.get('close_at') is None:
